@@ -170,7 +170,7 @@ func (s *Sim) RunConcurrent(fns []func(), choose func(step int, ready []int) int
 			fn()
 		}(fn)
 	}
-	deadline := time.Now().Add(60 * time.Second)
+	deadline := time.Now().Add(120 * time.Second)
 	started := map[int]bool{}
 	finished := map[int]bool{}
 	step := 0
